@@ -1,9 +1,8 @@
 //! `fillb` stream (C10): byte fills through every API into canary-framed destinations.
 use crate::util::*;
-use crate::word::run_ops;
 use std::io::Read as _;
 use std::mem::MaybeUninit;
-use urandom::rng::{ChaCha12, ChaCha20, ChaCha8, Mock, SplitMix64, Wyrand, Xoshiro256};
+use urandom::rng::{ChaCha12, ChaCha20, ChaCha8, Mock, SplitMix64, System, Wyrand, Xoshiro256};
 use urandom::{Random, Rng};
 
 const PAD: usize = 64;
@@ -91,7 +90,8 @@ fn next_or_panic<G: Rng + ?Sized>(r: &mut Random<G>) -> String {
 	}
 }
 
-fn run<G: Rng + Clone>(mk: &dyn Fn() -> R<Random<G>>, req: &Req) -> R<String> {
+fn run<G: Rng>(mk: &dyn Fn() -> R<Random<G>>, req: &Req) -> R<String> {
+	let run_ops = |r: &mut Random<G>, ops: &[&str]| -> R<Vec<String>> { ops.iter().map(|op| crate::word::run_op_noclone(r, op)).collect() };
 	let pre = req.strs("pre");
 	let api = req.get("api")?;
 	if api == "random_bytes" {
@@ -138,6 +138,23 @@ pub fn fillb(req: &Req) -> R<String> {
 		"chacha8" => run(&|| Ok(ChaCha8::from_seed(seed)), req),
 		"chacha12" => run(&|| Ok(ChaCha12::from_seed(seed)), req),
 		"chacha20" => run(&|| Ok(ChaCha20::from_seed(seed)), req),
+		// the system-entropy generator over the scripted entropy source (every fetch succeeds): its bytes are the tagged fetch words
+		"system" => {
+			#[cfg(not(feature = "gr"))]
+			{
+				let mk = |n: u64| -> R<()> { let _ = n; crate::entropy::reset(&[]); Ok(()) };
+				return match req.opt_u64("n")?.unwrap_or(31) {
+					1 => run(&|| { mk(1)?; Ok(System::<1>::new()) }, req),
+					2 => run(&|| { mk(2)?; Ok(System::<2>::new()) }, req),
+					4 => run(&|| { mk(4)?; Ok(System::<4>::new()) }, req),
+					31 => run(&|| { mk(31)?; Ok(System::<31>::new()) }, req),
+					64 => run(&|| { mk(64)?; Ok(System::<64>::new()) }, req),
+					_ => Err(Bad),
+				};
+			}
+			#[cfg(feature = "gr")]
+			Err(Bad)
+		}
 		"mock" => {
 			let words = req.list_u64("words")?;
 			let leaked: &'static [u64] = Box::leak(words.into_boxed_slice());
